@@ -44,12 +44,13 @@ func init() {
 				"c17_stream_nonstream_compared", "c17_openai_native_compared", "c17_client_cancel_midstream"}},
 	})
 	register(&harnessSpec{
-		name:     "apirace",
-		testPkg:  "server",
-		testFunc: "TestVerifAPIRace",
-		pkgs:     apiracePkgs,
-		files:    apiFiles,
-		race:     true,
+		name:        "apirace",
+		testPkg:     "server",
+		testFunc:    "TestVerifAPIRace",
+		pkgs:        apiracePkgs,
+		files:       apiFiles,
+		race:        true,
+		generations: 4,
 	}, map[string]propSpec{
 		"C15": {level: "exploration", quickS: 60, thoroughS: 780,
 			probes: []string{"c15_ps_checked", "c15_ps_nonempty", "c15_generate_ok", "c15_chat_ok", "c15_embed_ok", "c15_create_ok",
